@@ -2,6 +2,7 @@ package render
 
 import (
 	"bytes"
+	"fmt"
 	"io"
 	"os"
 	"strings"
@@ -144,7 +145,14 @@ func (c rendererContext) RenderChildren(w io.Writer) Error {
 	return c.ctx.RenderSequence(w, c.cn.Body)
 }
 
+// maxIncludeDepth bounds the nesting of included files. A file that includes itself, directly
+// or through others, would otherwise recurse until the stack overflows, which ends the process.
+const maxIncludeDepth = 100
+
 func (c rendererContext) RenderFile(filename string, b map[string]any) (string, error) {
+	if c.ctx.depth >= maxIncludeDepth {
+		return "", fmt.Errorf("include nesting too deep (more than %d levels) at %s", maxIncludeDepth, filename)
+	}
 	source, err := os.ReadFile(filename)
 	if err != nil && os.IsNotExist(err) {
 		// Is it cached?
@@ -168,7 +176,9 @@ func (c rendererContext) RenderFile(filename string, b map[string]any) (string, 
 		bindings[k] = v
 	}
 	buf := new(bytes.Buffer)
-	if err := Render(root, buf, bindings, c.ctx.config); err != nil {
+	ctx := newNodeContext(bindings, c.ctx.config)
+	ctx.depth = c.ctx.depth + 1
+	if err := renderWith(root, buf, ctx); err != nil {
 		return "", err
 	}
 	return buf.String(), nil
